@@ -79,6 +79,11 @@ Proof.
 Qed.
 Lemma skipn_past (l : bytes) p : lenb l <= p -> skipn (N.to_nat p) l = [].
 Proof. unfold lenb. intro H. apply skipn_all2. lia. Qed.
+Lemma seek_skipn pos (file : bytes) : seek pos file = skipn (N.to_nat pos) file.
+Proof.
+  unfold seek. destruct (N.ltb_spec (lenb file) pos) as [H|H]; [|reflexivity].
+  symmetry. apply skipn_past. lia.
+Qed.
 Lemma p_row_nil : p_row [] = None.
 Proof. reflexivity. Qed.
 
@@ -90,41 +95,41 @@ Lemma scan_cut : forall ns, Forall wf_record ns -> forall pre acc c fuel,
 Proof.
   induction ns as [|n ns IH]; intros Hwf pre acc c fuel Hf.
   - cbn [flat flat_map cut_records map]. rewrite firstn_nil, !app_nil_r.
-    destruct fuel as [|k]; [lia|]. cbn [scan]. rewrite N.eqb_refl. reflexivity.
+    destruct fuel as [|k]; [lia|]. cbn [scan]; rewrite ?seek_skipn. rewrite N.eqb_refl. reflexivity.
   - inversion Hwf as [|? ? Hn Hns]; subst. cbn [cut_records].
     destruct fuel as [|k]; [lia|]. cbn [length] in Hf.
     pose proof (e_record_length n Hn) as Hlen.
     unfold flat. cbn [flat_map]. fold (flat ns).
     destruct (Nat.eqb c 0) eqn:Ec0.
-    + apply Nat.eqb_eq in Ec0. subst c. cbn [firstn]. rewrite app_nil_r. cbn [scan map].
+    + apply Nat.eqb_eq in Ec0. subst c. cbn [firstn]. rewrite app_nil_r. cbn [scan map]; rewrite ?seek_skipn.
       rewrite N.eqb_refl, app_nil_r. reflexivity.
     + apply Nat.eqb_neq in Ec0. destruct (Nat.ltb c (length (e_record n))) eqn:Ec.
       * (* the cut falls inside the first record *)
         apply Nat.ltb_lt in Ec.
         rewrite firstn_app. replace (c - length (e_record n))%nat with 0%nat by lia.
-        cbn [firstn]. rewrite app_nil_r. cbn [scan].
+        cbn [firstn]. rewrite app_nil_r. cbn [scan]; rewrite ?seek_skipn.
         assert (length (firstn c (e_record n)) = c) as Hpl by (rewrite firstn_length; lia).
         assert ((lenb pre =? lenb (pre ++ firstn c (e_record n))) = false) as ->
           by (rewrite lenb_app; unfold lenb; rewrite Hpl; lia).
-        rewrite skipn_lenb_app.
+        rewrite ?seek_skipn, skipn_lenb_app.
         destruct (p_row (firstn c (e_record n))) as [[[m cm] rest]|] eqn:Ep; [|reflexivity].
         (* the head was complete: the next position lies past the end of the file *)
         pose proof (p_row_consumes _ _ _ Ep) as H84. unfold lenb in H84. rewrite Hpl in H84.
         rewrite e_record_split in Ep. rewrite firstn_app in Ep. rewrite (head_len n Hn) in Ep.
         rewrite firstn_all2 in Ep by (rewrite (head_len n Hn); lia).
         rewrite (p_row_head n _ Hn) in Ep. injection Ep as <- <- _.
-        destruct k as [|k']; [lia|]. cbn [scan].
+        destruct k as [|k']; [lia|]. cbn [scan]; rewrite ?seek_skipn.
         pose proof (e_record_len n Hn) as HL.
         assert ((lenb pre + lenb (record_body n) + 8 =? lenb (pre ++ firstn c (e_record n))) = false) as ->
           by (rewrite lenb_app; unfold lenb in *; rewrite Hpl; lia).
-        rewrite skipn_past; [reflexivity|]. rewrite lenb_app. unfold lenb in *. rewrite Hpl. lia.
+        rewrite ?seek_skipn, skipn_past; [reflexivity|]. rewrite lenb_app. unfold lenb in *. rewrite Hpl. lia.
       * (* the first record is whole *)
         apply Nat.ltb_ge in Ec.
         rewrite firstn_app. rewrite firstn_all2 by lia.
-        cbn [scan].
+        cbn [scan]; rewrite ?seek_skipn.
         assert ((lenb pre =? lenb (pre ++ e_record n ++ firstn (c - length (e_record n)) (flat ns))) = false) as ->
           by (rewrite !lenb_app; unfold lenb; lia).
-        rewrite skipn_lenb_app. rewrite e_record_split at 1. rewrite <- !app_assoc.
+        rewrite ?seek_skipn, skipn_lenb_app. rewrite e_record_split at 1. rewrite <- !app_assoc.
         rewrite (p_row_head n _ Hn).
         pose proof (e_record_len n Hn) as HL.
         replace (lenb pre + lenb (record_body n) + 8) with (lenb (pre ++ e_record n))
@@ -277,13 +282,13 @@ Lemma scan_back_records : forall rs, Forall wf_record rs -> forall pre suffix ac
   Some (rev acc ++ rev (map r_commit rs)).
 Proof.
   intros rs. induction rs as [|r rs IH] using rev_ind; intros Hwf pre suffix acc fuel Hf.
-  - cbn [flat flat_map map rev]. rewrite !app_nil_r. destruct fuel as [|k]; [lia|]. cbn [scan_back].
+  - cbn [flat flat_map map rev]. rewrite !app_nil_r. destruct fuel as [|k]; [lia|]. cbn [scan_back]; rewrite ?seek_skipn.
     rewrite N.eqb_refl. reflexivity.
   - apply Forall_app in Hwf. destruct Hwf as [Hrs Hr]. inversion Hr as [|? ? Hwr _]; subst.
     assert (flat (rs ++ [r]) = flat rs ++ e_record r) as Hfl
       by (unfold flat; rewrite flat_map_app; cbn [flat_map]; rewrite app_nil_r; reflexivity).
     rewrite Hfl. rewrite app_length in Hf. cbn [length] in Hf.
-    destruct fuel as [|k]; [lia|]. cbn [scan_back].
+    destruct fuel as [|k]; [lia|]. cbn [scan_back]; rewrite ?seek_skipn.
     pose proof (e_record_len r Hwr) as HL. pose proof (record_body_len r Hwr) as HB.
     set (L := lenb (record_body r)) in *.
     assert (lenb (pre ++ flat rs ++ e_record r) = lenb (pre ++ flat rs) + (L + 8)) as Hpos
@@ -299,7 +304,7 @@ Proof.
     assert (lenb (pre ++ flat rs) + (L + 8) - 4 = lenb (pre ++ flat rs ++ head r ++ r_data r)) as ->.
     { assert (lenb (head r) = 84) as Hh84 by (unfold lenb; rewrite (head_len r Hwr); reflexivity).
       rewrite !lenb_app, Hh84. lia. }
-    rewrite skipn_lenb_app.
+    rewrite ?seek_skipn, skipn_lenb_app.
     assert (L < 4294967296) as HL32 by (destruct Hwr as (_ & _ & _ & Hd); rewrite MAXB_val in Hd; lia).
     rewrite p_u32_rt by exact HL32.
     assert ((lenb (pre ++ flat rs) + (L + 8) <? lenb pre + L + 8) = false) as -> by (rewrite lenb_app; lia).
@@ -311,7 +316,7 @@ Proof.
     { unfold head. fold L. rewrite <- !app_assoc. reflexivity. }
     rewrite Hsplit2.
     assert (lenb (pre ++ flat rs) + 4 = lenb ((pre ++ flat rs) ++ e_u32 L)) as -> by (rewrite (lenb_app (pre ++ flat rs)), e_u32_len; lia).
-    rewrite skipn_lenb_app. rewrite (p_row_tail_rt r _ Hwr).
+    rewrite ?seek_skipn, skipn_lenb_app. rewrite (p_row_tail_rt r _ Hwr).
     (* back to the shape of the induction hypothesis *)
     rewrite <- Hsplit2, <- Hsplit1.
     replace (pre ++ (flat rs ++ e_record r) ++ suffix) with (pre ++ flat rs ++ (e_record r ++ suffix))
